@@ -122,6 +122,10 @@ func (p *PktapV1) DecodeFromBytes(data []byte, df gopacket.DecodeFeedback) error
 	if p.HeaderLength < 156 {
 		return fmt.Errorf("pktap v1 header length mismatch: got %d", p.HeaderLength)
 	}
+	if uint64(p.HeaderLength) > uint64(len(data)) {
+		df.SetTruncated()
+		return fmt.Errorf("pktap v1 header length %d exceeds packet length %d", p.HeaderLength, len(data))
+	}
 
 	p.RecordType = binary.LittleEndian.Uint32(data[4:8])
 	if p.RecordType != PKTRecPacket {
